@@ -148,6 +148,8 @@ class SymEx:
                 dyn = self.M.cls(self_term[1][1])          # Child().run(x): the receiver was constructed right here
             elif st.env.get('self') == self_term:
                 dyn = self.dyn.get(len(self.frames))
+        if dyn is None and fn.cls is not None and not self.frames and not fn.is_static:
+            dyn = fn.cls            # an entry point summarised for its own class: self is (at least) an instance of that class
         if dyn is not None and fn.cls is not None and fn.cls not in dyn.mro():
             dyn = None
         env = {}
